@@ -144,18 +144,26 @@ ExcE(n, k) == \E r \in SameNodeReqs(n) : /\ k \in KeySet(r) /\ (~Open(r) \/ k \i
 \*    another session's traffic before the session had registered the want
 ExcC(n, k) == \E r \in SameNodeReqs(n) :
                  /\ rq[r].s # 0 /\ sess[rq[r].s].st = "open" /\ k \in Got(r)
-                 /\ k \in larr[r] \/ \E q \in SameNodeReqs(n) : q # r /\ rq[q].s # rq[r].s /\ k \in KeySet(q)
+                 /\ (k \in larr[r] \/ \E q \in SameNodeReqs(n) : q # r /\ k \in KeySet(q))
 ExcF(n, k) == \E r \in SameNodeReqs(n) : k \in kF[r]
 \* A, leak facet: the sibling's late opCancel withdraws the interest the other call re-registered after a
 \*    receipt; the sender's wants for it are then never cancelled
 ExcA(n, k) == \E r \in SameNodeReqs(n) : k \in kA[r]
-\* B: k received (from src) while a lagging sender can still be triggered to send it: by a second session
-\*    peer m2 becoming available, or because another call of the node (queued add on the same session, or the
-\*    sender of another session that has not processed its own cancel/receipt yet) asked for the same key
-ExcB(n, k) == \E r \in SameNodeReqs(n) :
-                 /\ MayHaveReceived(r, k)
-                 /\ \/ \E src \in Senders(r, k), m2 \in adj[n] : m2 # src /\ SessPeer(r, m2)
-                    \/ \E q \in SameNodeReqs(n) : q # r /\ k \in KeySet(q)
+\* B, stated on the mechanism: on receipt of k the session loop CANCELs k at once, the want sender forgets k only
+\*    when it reaches the receipt in its own queue; every change queued AHEAD of the receipt and processed after the
+\*    CANCEL runs sendNextWants with k still tracked and re-sends it.  Such a change exists iff the sender had
+\*    anything to process that is not part of the causal chain "want for k -> answer of k's only source":
+\*      - a message of a neighbour m about the session's keys: m holds another key of the session, or m holds a
+\*        session key and is not the only source of k (HAVE / block / DONT_HAVE from a second source), or
+\*      - the add of another call of the node for k (same session: queued add; other session: its own lagging sender).
+\*    One call, one key, one source => no such change => strict.
+Trigger(r, k) == \/ \E m \in adj[rq[r].node] : /\ SessPeer(r, m)
+                                                /\ ((SessKeys(r) \ {k}) \cap has[m] # {} \/ Senders(r, k) \ {m} # {})
+                 \/ \E q \in SameNodeReqs(rq[r].node) : q # r /\ k \in KeySet(q)
+ExcB(n, k) == \E r \in SameNodeReqs(n) : MayHaveReceived(r, k) /\ Trigger(r, k)
+\* liveness facet: the left-over entry makes the peer want manager drop a later want for k to the same peer as
+\* "already sent" (until the 30 s message-queue rebroadcast)
+StaleEntry(r) == \E k \in Awaited(r) : \E q \in SameNodeReqs(rq[r].node) \ {r} : MayHaveReceived(q, k) /\ Trigger(q, k)
 
 Excuse(n, k) == IF "Dev_C37_LocalBlockWantLeak" \in Devs /\ ExcD(n, k) THEN "Dev_C37_LocalBlockWantLeak"
            ELSE IF "Dev_C37_RewantAfterCancel" \in Devs /\ ExcF(n, k) THEN "Dev_C37_RewantAfterCancel"
@@ -184,6 +192,7 @@ TimeoutExcuse(r) == IF "Dev_C37_SharedWantCancelled" \in Devs /\ kA[r] \cap Awai
                ELSE IF "Dev_C37_RewantAfterCancel" \in Devs /\ kF[r] \cap Awaited(r) # {} THEN "Dev_C37_RewantAfterCancel"
                ELSE IF "Dev_C37_LocalBlockWantLeak" \in Devs /\ StaleLocal(r) THEN "Dev_C37_LocalBlockWantLeak"
                ELSE IF "Dev_C37_CrossSessionCancelWipe" \in Devs /\ kG[r] \cap Awaited(r) # {} THEN "Dev_C37_CrossSessionCancelWipe"
+               ELSE IF "Dev_C37_LateWantAfterReceive" \in Devs /\ StaleEntry(r) THEN "Dev_C37_LateWantAfterReceive"
                ELSE "none"
 TTimeoutDev == /\ Devs # {}
                /\ IsEvent("Timeout") /\ Ev.r \in Req
